@@ -42,6 +42,7 @@ using namespace verif;
 // ------------------------------------------------------------------------------- ledger
 static int g_next = 0;           // next object id
 static std::string g_evs;        // events of the current operation
+static unsigned copy_variant = 0, move_variant = 0;    // rotate the spelling of copy / move (reset per case)
 static int g_arm = 0;            // countdown: the g_arm-th payload copy/move construction throws
 static bool g_reloc = false;     // last call: callable observed `this` != address it was constructed at
 static constexpr unsigned ALIVE = 0xA11CE5u, GONE = 0xDEADu;
@@ -500,8 +501,20 @@ static std::string do_op(op_t const& o)
     if (n == "copy")
     {
         if (!s.live() || !t.live() || s.kind != t.kind || !s.copyable()) return "invalid";
-        if (s.kind == 'F') *s.f = static_cast<fn_t const&>(*t.f);
-        else *s.a = static_cast<as_t const&>(*t.a);
+        // the copy is taken through one of the equivalent spellings the API offers (rotating): assignment from a const
+        // lvalue, assignment from a non-const lvalue, reset(non-const lvalue), reset(const lvalue)
+        // (only while no construction is armed to throw: the spellings differ in how many payload constructions they
+        // perform, and the model counts the constructions of the plain assignment)
+        unsigned const v = g_arm > 0 ? 0 : copy_variant++ % 4;
+        if (s.kind == 'F')
+        {
+            if (v & 1) *s.f = *t.f;
+            else *s.f = static_cast<fn_t const&>(*t.f);
+        }
+        else if (v == 0) *s.a = static_cast<as_t const&>(*t.a);
+        else if (v == 1) *s.a = *t.a;
+        else if (v == 2) s.a->reset(*t.a);
+        else s.a->reset(static_cast<as_t const&>(*t.a));
         return "ok";
     }
     if (n == "move")
@@ -509,9 +522,28 @@ static std::string do_op(op_t const& o)
         if (!s.live() || !t.live() || !moves_from(s.kind, t.kind)) return "invalid";
         if (s.kind == 'F') *s.f = std::move(*t.f);
         else if (s.kind == 'Q') *s.q = std::move(*t.q);
-        else if (s.kind == 'A') *s.a = std::move(*t.a);
-        else if (t.kind == 'U') *s.u = std::move(*t.u);
-        else *s.u = std::move(*t.a);
+        else
+        {
+            // assignment or reset(rvalue), rotating
+            // reset(rvalue) is the same as move assignment only between wrappers of the SAME type; unique.reset(any&&)
+            // stores the any_sender as an ordinary sender (a non-empty wrapper around a possibly empty any_sender)
+            bool const viareset = (g_arm > 0 || s.kind != t.kind) ? false : (move_variant++ & 1) != 0;
+            if (s.kind == 'A')
+            {
+                if (viareset) s.a->reset(std::move(*t.a));
+                else *s.a = std::move(*t.a);
+            }
+            else if (t.kind == 'U')
+            {
+                if (viareset) s.u->reset(std::move(*t.u));
+                else *s.u = std::move(*t.u);
+            }
+            else
+            {
+                if (viareset) s.u->reset(std::move(*t.a));
+                else *s.u = std::move(*t.a);
+            }
+        }
         return "ok";
     }
     if (n == "cctor")
@@ -599,6 +631,8 @@ static void reset_world()
     }
     g_next = 0;
     g_arm = 0;
+    copy_variant = 0;
+    move_variant = 0;
     g_evs.clear();
 }
 
